@@ -176,4 +176,5 @@ import models_tera     # noqa
 import models_misc     # noqa
 import models_env      # noqa
 import models_serde    # noqa
+import models_path     # noqa
 _interp.OVERRIDES.update(models_tera.OVERRIDES)
